@@ -41,6 +41,10 @@ pub struct Case {
     pub comp: Comp,
     pub segs: Vec<Seg>,
     pub plans: Vec<Plan>,
+    /// contents at the start of a segment and at every 4095th place are handed over as files
+    /// (`InputFile`), the others from memory: the writer copies the two kinds differently
+    #[serde(default)]
+    pub file_sources: bool,
 }
 
 pub struct C08;
@@ -227,18 +231,39 @@ impl Property for C08 {
         )
             .prop_map(|(kind, seed, cpus)| Plan { kind, seed, cpus });
         let nplans = if tier == Tier::Thorough { 6 } else { 4 };
-        (real_comp_strategy(), prop::collection::vec(seg, 2..7), prop::collection::vec(plan, nplans..=nplans))
-            .prop_map(|(comp, segs, plans)| Case { comp: comp.tame(), segs, plans })
+        (real_comp_strategy(), prop::collection::vec(seg, 2..7), prop::collection::vec(plan, nplans..=nplans), any::<bool>())
+            .prop_map(|(comp, segs, plans, file_sources)| Case { comp: comp.tame(), segs, plans, file_sources })
             .boxed()
     }
 
     fn required_classes(_tier: Tier) -> Vec<&'static str> {
-        vec!["plan:VerySlowWorkers", "orders-differ", "raw+compressed", "workers:1", "workers>=7", "queue-longer-than-limit", "clusters>=6"]
+        vec!["file-sources", "plan:VerySlowWorkers", "orders-differ", "raw+compressed", "workers:1", "workers>=7", "queue-longer-than-limit", "clusters>=6"]
     }
 
     fn run(case: &Case, ctx: &Ctx) -> CaseResult {
         let mut info = CaseInfo::new();
         let items = expand(&case.segs);
+        let seg_starts: Vec<usize> = {
+            let mut at = 0usize;
+            let mut v = vec![];
+            for sg in &case.segs {
+                v.push(at);
+                // a raw cluster closes after 4095 blobs: the blob after it opens the next one
+                if let Seg::Tiny { n, .. } = sg {
+                    for c in (4095..*n as usize).step_by(4095) {
+                        v.push(at + c);
+                    }
+                }
+                at += match sg {
+                    Seg::Tiny { n, .. } => *n as usize,
+                    Seg::Big { n, .. } => *n as usize,
+                };
+            }
+            v
+        };
+        if case.file_sources {
+            info.class("file-sources");
+        }
         let mut orders: Vec<Vec<u32>> = vec![];
         let mut first_addrs: Option<Vec<jbk::ContentAddress>> = None;
         let mut evals = 0u64;
@@ -254,8 +279,10 @@ impl Property for C08 {
                     Err(e) => fail!("create-error", "{e}"),
                 };
                 let mut addrs = Vec::with_capacity(items.len());
-                for (b, h) in &items {
-                    match creator.add_content(Box::new(std::io::Cursor::new(b.clone())), h.to_jbk()) {
+                for (k, (b, h)) in items.iter().enumerate() {
+                    let from_file = case.file_sources && (seg_starts.contains(&k) || k % 4095 == 0 || (k > 0 && items[k - 1].1 != *h));
+                    let reader = crate::gen::make_reader(b, if from_file { crate::gen::Source::File } else { crate::gen::Source::Mem });
+                    match creator.add_content(reader, h.to_jbk()) {
                         Ok(a) => addrs.push(a),
                         Err(e) => fail!("add-error", "run {ri}: add_content: {e}"),
                     }
